@@ -37,6 +37,8 @@ pub fn main_threads(dispatch: Dispatch, args: &[String]) {
             p.swap(i, j);
         }
     }
+    // deep-nesting workloads ask for a larger native stack (VFRT_STACK_MB): the stack is the harness's, not the parser's
+    let stack_bytes: usize = std::env::var("VFRT_STACK_MB").ok().and_then(|s| s.parse::<usize>().ok()).map(|mb| mb << 20).unwrap_or(16 << 20);
     let barrier = Arc::new(Barrier::new(nthreads));
     let base = Instant::now();
     let mut handles = Vec::new();
@@ -46,7 +48,7 @@ pub fn main_threads(dispatch: Dispatch, args: &[String]) {
         let tseed = seed ^ ((t as u64 + 1) << 32);
         handles.push(
             std::thread::Builder::new()
-                .stack_size(16 << 20)
+                .stack_size(stack_bytes)
                 .spawn(move || {
                     seed_shake(shake, tseed);
                     let mut out = String::new();
